@@ -138,7 +138,7 @@ def expected_bt(zone, t):
 def run_C01(chk):
     chk.prepare_model(['Cctz.Properties.C01', 'Cctz.Properties.C01Rule', 'Cctz.Properties.C01Decode', 'Cctz.Properties.C01Glue'], THEOREMS['C01'])
     exe = chk.harness('san')
-    scale = chk.tier if not chk.broken else 'thorough'
+    scale = chk.tier if not (chk.broken or chk.degraded) else 'thorough'
     if exe is None or not getattr(chk, 'driver_ok', False):
         return chk.finish()
     zones = pick_corpus(chk, scale) + Z.untame_zones() + Z.irregular_zones()
@@ -231,7 +231,7 @@ def civil_blocks(chk, zones, scale, op='mt', shuffle_too=False):
 def run_C02(chk):
     chk.prepare_model('Cctz.Properties.C02', THEOREMS['C02'])
     exe = chk.harness('san')
-    scale = chk.tier if not chk.broken else 'thorough'
+    scale = chk.tier if not (chk.broken or chk.degraded) else 'thorough'
     if exe is None or not getattr(chk, 'driver_ok', False):
         return chk.finish()
     zones = pick_corpus(chk, scale)
@@ -274,7 +274,7 @@ def run_C02(chk):
 def run_C03(chk):
     chk.prepare_model('Cctz.Properties.C03', THEOREMS['C03'])
     exe = chk.harness('san')
-    scale = chk.tier if not chk.broken else 'thorough'
+    scale = chk.tier if not (chk.broken or chk.degraded) else 'thorough'
     if exe is None or not getattr(chk, 'driver_ok', False):
         return chk.finish()
     zones = pick_corpus(chk, scale)
@@ -340,7 +340,7 @@ def run_C03(chk):
 def run_C06(chk):
     chk.prepare_model('Cctz.Properties.C06', THEOREMS['C06'])
     exe = chk.harness('san')
-    scale = chk.tier if not chk.broken else 'thorough'
+    scale = chk.tier if not (chk.broken or chk.degraded) else 'thorough'
     if exe is None or not getattr(chk, 'driver_ok', False):
         return chk.finish()
     zones = pick_corpus(chk, scale)
@@ -389,7 +389,7 @@ def run_C06(chk):
 def run_C11(chk):
     chk.prepare_model('Cctz.Properties.C11', THEOREMS['C11'])
     exe = chk.harness('san')
-    scale = chk.tier if not chk.broken else 'thorough'
+    scale = chk.tier if not (chk.broken or chk.degraded) else 'thorough'
     if exe is None or not getattr(chk, 'driver_ok', False):
         return chk.finish()
     zones = pick_corpus(chk, scale)
@@ -482,7 +482,7 @@ def extreme_civils(rng, n):
 def run_C10(chk):
     chk.prepare_model(['Cctz.Properties.C10', 'Cctz.Properties.C10Safe', 'Cctz.Properties.C10Check'], THEOREMS['C10'])
     exe = chk.harness('san')
-    scale = chk.tier if not chk.broken else 'thorough'
+    scale = chk.tier if not (chk.broken or chk.degraded) else 'thorough'
     if exe is None or not getattr(chk, 'driver_ok', False):
         return chk.finish()
     zones = pick_corpus(chk, scale) + Z.untame_zones()
@@ -567,7 +567,7 @@ def run_C10(chk):
 def run_C14(chk):
     chk.prepare_model('Cctz.Properties.C14', THEOREMS['C14'])
     exe = chk.harness('san')
-    scale = chk.tier if not chk.broken else 'thorough'
+    scale = chk.tier if not (chk.broken or chk.degraded) else 'thorough'
     if exe is None or not getattr(chk, 'driver_ok', False):
         return chk.finish()
     rng = chk.rng
